@@ -1182,24 +1182,25 @@ class DiskRefsContainer(RefsContainer):
 
         Args:
           name: Name of the ref
-          expected: If not None, only remove the loose ref, while holding its
-            lock, if it still has this value, so that a concurrent update of
-            the ref is never thrown away
+          expected: If not None, only remove the loose ref if it still has
+            this value, so that a concurrent update of the ref is never
+            thrown away. The ref's lock is held for the removal either way.
         """
         filename = self.refpath(name)
-        if expected is None:
-            with suppress(OSError):
-                os.remove(filename)
-            self._remove_empty_parents(name)
-            return
         try:
             f = GitFile(filename, "wb")
-        except (OSError, FileLocked):
-            # No loose ref directory, or the ref is being updated right now;
-            # a left-over loose ref is harmless as it overrides the packed one.
+        except FileLocked:
+            if expected is None:
+                # The caller asked for the loose ref to go, and it stays
+                raise
+            # The ref is being updated right now; a left-over loose ref is
+            # harmless as it overrides the packed one.
+            return
+        except OSError:
+            # No loose ref directory
             return
         try:
-            if self.read_loose_ref(name) == expected:
+            if expected is None or self.read_loose_ref(name) == expected:
                 with suppress(OSError):
                     os.remove(filename)
         finally:
